@@ -585,7 +585,7 @@ fn check_error_agreement(ctx: &Ctx, z: &MZone, zr: TimeZoneRef<'_>, f: &Fields, 
     tl.searches += 1;
     let mut b0: [Option<FoundDateTimeKind>; 0] = [];
     let mut b3 = [stale_entry(); 3];
-    for n in 1..3usize {
+    for n in [1usize, 2, 4, 5] {
         let mut bn = vec![stale_entry(); n];
         let rn = DateTime::find_n(&mut bn, f.y, f.mo, f.d, f.h, f.mi, f.s, f.ns, zr).map(|l| l.count()).map_err(|e| err_name(&e));
         #[cfg(feature = "tz-alloc")]
@@ -994,6 +994,96 @@ pub fn sweep_range_ends(ctx: &Ctx) -> Tally {
     tl
 }
 
+/// small world at both ends of the supported range: every ascending choice of up to three transition times around the limit
+/// (before it, beyond it, at the end of the i64 range) x every type sequence over four offsets (a day, an hour, zero, minus an
+/// hour); readings on the last / first day. Here a search may fail half-way (a result or the description of a gap is not
+/// representable) after other results were already produced: the buffer search of every length 0..5 must fail exactly like
+/// the allocating one, or report the same count (C17; nothing else is judged, the model-based sweeps stay inside the range)
+fn sweep_range_end_errors(ctx: &Ctx) -> Tally {
+    let offs: [i32; 4] = [86400, 3600, 0, -3600];
+    let mut layouts: Vec<(bool, Vec<i64>)> = vec![];
+    for top in [true, false] {
+        let lim = if top { MAX_UNIX_TIME } else { MIN_UNIX_TIME };
+        let pts: Vec<i64> = [-90000i64, -80000, -3700, -100, -1, 1, 100, 3700, 80000, 90000].iter().map(|d| lim + d).collect();
+        for a in 0..pts.len() {
+            layouts.push((top, vec![pts[a]]));
+            for b in a + 1..pts.len() {
+                layouts.push((top, vec![pts[a], pts[b]]));
+                for c in b + 1..pts.len() {
+                    layouts.push((top, vec![pts[a], pts[b], pts[c]]));
+                }
+            }
+        }
+    }
+    let t = layouts
+        .par_iter()
+        .map(|(top, times)| {
+            let mut tl = Tally::default();
+            let lim = if *top { MAX_UNIX_TIME } else { MIN_UNIX_TIME };
+            let k = times.len();
+            let r = guard(|| {
+                let mut tl = Tally::default();
+                for code in 0..4usize.pow(k as u32 + 1) {
+                    // type sequence: initial type, then one per transition; consecutive types differ
+                    let seq: Vec<usize> = (0..=k).map(|i| (code / 4usize.pow(i as u32)) % 4).collect();
+                    if seq.windows(2).any(|w| w[0] == w[1]) {
+                        continue;
+                    }
+                    for end_marker in [false, true] {
+                        let types: Vec<MType> = (0..4).map(|i| MType::new(offs[(i + seq[0]) % 4], false, Some(["AAA", "BBB", "CCC", "DDD"][i]))).collect();
+                        // type index j of the zone has offset offs[(j + seq[0]) % 4]: index 0 is the initial type
+                        let idx = |s: usize| (s + 4 - seq[0]) % 4;
+                        let mut trans: Vec<(i64, usize)> = times.iter().enumerate().map(|(i, &t)| (t, idx(seq[i + 1]))).collect();
+                        if end_marker {
+                            if *top {
+                                trans.push((i64::MAX, idx(seq[k])));
+                            } else {
+                                trans.insert(0, (i64::MIN + 1, 0));
+                            }
+                        }
+                        let z = MZone { trans, types, leaps: vec![], rule: None };
+                        let iz = match ImplZone::from_model(&z) {
+                            Ok(i) => i,
+                            Err(_) => continue,
+                        };
+                        let zr = match iz.zref() {
+                            Ok(r) => r,
+                            Err(_) => {
+                                tl.refused_zones += 1;
+                                continue;
+                            }
+                        };
+                        tl.zones += 1;
+                        let mut ls: Vec<i64> = vec![];
+                        for &tt in times.iter().chain([lim].iter()) {
+                            for &o in &offs {
+                                for d in [-11i64, -1, 0, 1, 11] {
+                                    ls.push(tt + o as i64 + d);
+                                }
+                            }
+                        }
+                        ls.sort();
+                        ls.dedup();
+                        for &l in &ls {
+                            if let Some(f) = Fields::of_local(ctx.cyc, l, 0) {
+                                check_error_agreement(ctx, &z, zr, &f, "range_end_errors", &mut tl);
+                            }
+                        }
+                    }
+                }
+                tl
+            });
+            match r {
+                Ok(t2) => tl = tl.merge(t2),
+                Err(m) => ctx.rec.violation("range_end_errors", json!({"kind":"range_end_layout","top":top,"times":times}), json!("no panic"), json!(m)),
+            }
+            tl
+        })
+        .reduce(Tally::default, Tally::merge);
+    ctx.rec.sub("range_end_errors", t.json());
+    t
+}
+
 pub fn rule_zone(r: &RuleSpec, line: Arc<Timeline>) -> MZone {
     let (ms, md) = (crate::rule::std_type(r), crate::rule::dst_type(r));
     MZone { trans: vec![], types: vec![ms, md], leaps: vec![], rule: Some(MRule::alt_with_line(*r, ms, md, line)) }
@@ -1380,6 +1470,73 @@ fn sweep_many_results(ctx: &Ctx) -> Tally {
         }
     }
     ctx.rec.sub("many_results", tl.json());
+    tl
+}
+
+/// result lists around 2^16 entries (a counter or an index narrowed to 16 bits): K local time types with offsets 0, -1, -2, ..
+/// and a transition to type i at 1 000 000 + i make the reading 1 000 000 occur once in every period. The expected list is
+/// known in closed form (instants 1 000 000 + i, ascending, type i), so the general model (quadratic here) is not needed;
+/// the buffer search runs at lengths 0, 1, 65 535, 65 536, 65 537, R - 1, R, R + 2 against the allocating one.
+fn sweep_huge_results(ctx: &Ctx) -> Tally {
+    let mut tl = Tally::default();
+    for (k, with_rule) in [(65_535usize, false), (65_536, false), (65_537, false), (65_537, true), (65_540, false), (70_001, true)] {
+        let r = guard(|| {
+            let mut tl = Tally::default();
+            let types: Vec<MType> = (0..k).map(|i| MType::new(-(i as i32), false, None)).collect();
+            let trans: Vec<(i64, usize)> = (1..k).map(|i| (1_000_000 + i as i64, i)).collect();
+            let rule = if with_rule { Some(MRule::Fixed(types[k - 1])) } else { None };
+            let z = MZone { trans, types, leaps: vec![], rule };
+            let iz = ImplZone::from_model(&z).unwrap();
+            let zr = iz.zref().unwrap();
+            tl.zones += 1;
+            // the last table transition opens no period of its own without a trailing rule (I10)
+            let expect: Vec<i64> = (0..if with_rule { k } else { k - 1 }).map(|i| 1_000_000 + i as i64).collect();
+            let f = Fields::of_local(ctx.cyc, 1_000_000, 0).unwrap();
+            let case = |what: &str| json!({"kind":"huge_results","types":k,"trailing_rule":with_rule,"what":what});
+            tl.searches += 1;
+            let all: Vec<FoundDateTimeKind> = match DateTime::find(f.y, f.mo, f.d, f.h, f.mi, f.s, f.ns, zr) {
+                Ok(l) => l.into_inner(),
+                Err(e) => {
+                    for p in [Prop::C05, Prop::C17] {
+                        if ctx.prop == p {
+                            ctx.rec.violation("huge_results", case("allocating search"), json!(format!("{} results", expect.len())), json!(err_name(&e)));
+                        }
+                    }
+                    return tl;
+                }
+            };
+            let got: Vec<i64> = all.iter().map(|x| match x { FoundDateTimeKind::Normal(d) => d.unix_time(), FoundDateTimeKind::Skipped { .. } => i64::MIN }).collect();
+            if got != expect && (ctx.prop == Prop::C05 || ctx.prop == Prop::C06) {
+                let first_bad = got.iter().zip(expect.iter()).position(|(a, b)| a != b).unwrap_or(got.len().min(expect.len()));
+                ctx.rec.violation("huge_results", case("allocating search"), json!({"results": expect.len()}), json!({"results": got.len(), "first_difference_at_index": first_bad}));
+            }
+            if ctx.prop == Prop::C17 {
+                let r_all = all.len();
+                for n in [0usize, 1, 65_535, 65_536, 65_537, r_all.saturating_sub(1), r_all, r_all + 2] {
+                    tl.searches += 1;
+                    let mut buf = vec![stale_entry(); n];
+                    match DateTime::find_n(&mut buf, f.y, f.mo, f.d, f.h, f.mi, f.s, f.ns, zr) {
+                        Err(e) => ctx.rec.violation("huge_results", case("buffer search"), json!({"buffer_len": n, "count": r_all}), json!(err_name(&e))),
+                        Ok(l) => {
+                            let (count, exh) = (l.count(), l.is_exhaustive());
+                            let m = n.min(r_all);
+                            let written_ok = buf[..m].iter().zip(all.iter()).all(|(a, b)| a.as_ref().map_or(false, |a| kind_exact_eq(a, b)));
+                            let rest_ok = buf[m..].iter().all(|s| opt_kind_exact_eq(s, &stale_entry()));
+                            if count != r_all || exh != (n >= r_all) || !written_ok || !rest_ok {
+                                ctx.rec.violation("huge_results", case("buffer search"), json!({"buffer_len": n, "count": r_all, "exhaustive": n >= r_all, "first min(n,k) slots equal the allocating list": true, "other slots untouched": true}), json!({"count": count, "exhaustive": exh, "first slots equal": written_ok, "other slots untouched": rest_ok}));
+                            }
+                        }
+                    }
+                }
+            }
+            tl
+        });
+        match r {
+            Ok(t2) => tl = tl.merge(t2),
+            Err(m) => ctx.rec.violation("huge_results", json!({"kind":"huge_results","types":k,"trailing_rule":with_rule,"what":"panic"}), json!("no panic"), json!(m)),
+        }
+    }
+    ctx.rec.sub("huge_results", tl.json());
     tl
 }
 
@@ -1801,6 +1958,10 @@ pub fn run_sweeps(ctx: &Ctx, tabs: &Tables, thorough: bool, light: bool) -> Tall
     }
     // 2c. both ends of the supported instant range
     total = total.merge(sweep_range_ends(ctx));
+    // 2c'. searches that fail half-way at the ends of the range: both entry points fail alike (C17)
+    if !light {
+        total = total.merge(sweep_range_end_errors(ctx));
+    }
     // 3. rule only
     total = total.merge(sweep_rule_only(ctx, tabs, if thorough { 120 } else if light { 6 } else { 30 }, false, "rule_only"));
     // 3b. non-interleaving accepted rules (keeps KF2 observable; any other failure mode is a violation)
@@ -1817,6 +1978,10 @@ pub fn run_sweeps(ctx: &Ctx, tabs: &Tables, thorough: bool, light: bool) -> Tall
     total = total.merge(sweep_rule_extreme_years(ctx));
     // 2d. result lists of up to 11 entries
     total = total.merge(sweep_many_results(ctx));
+    // 2d'. result lists around 2^16 entries
+    if !light {
+        total = total.merge(sweep_huge_results(ctx));
+    }
     // 4'. table + tie rules
     total = total.merge(sweep_junction_ties(ctx));
     // 3d. long call histories on one thread
